@@ -1,0 +1,11 @@
+//go:build verif
+// +build verif
+
+package account
+
+import "com.tuntun.rangers/node/src/common"
+
+// VerifRipemdConstant returns the address that touchChange.undo exempts from the undo of a touch
+// (the package variable ripemd), so that the C04 check can compare the actual 20 bytes with the
+// constant its model states.
+func VerifRipemdConstant() common.Address { return ripemd }
